@@ -98,6 +98,10 @@ Ltac nz_auto :=
         | match goal with H : _ <> _ |- _ => solve [nz_from H] end ]
   end.
 
+(* split conjunctions only (never an equality: `split` on an equation asks the
+   kernel to convert both sides, which can diverge on real-number terms) *)
+Ltac conj_split := repeat match goal with |- _ /\ _ => split end.
+
 (* equality of generated lists, component by component *)
 Ltac list_eq tac :=
   repeat match goal with
